@@ -574,6 +574,36 @@ def c12a(cfg):
                     rec.direct_violation(name, f"{sigb}:calllog-repeat", {"request": [bi, bj, *n], "repeated": dup})
                 else:
                     rec.discharged(name + f" ({len(calls)} evaluations)", "confirmed")
+    # whole request schedules on one computation: after every request the evaluations so far lie in the union of the cones of the
+    # orders requested so far, and no Hamiltonian term is ever evaluated twice (also after intermediate results were deleted)
+    import random as _random
+
+    allreq = [(w, bi, bj, n) for w in range(3) for n in req for (bi, bj) in itertools.product(range(len(sizes)), repeat=2)]
+    schedules = {"ascending": list(allreq), "descending": list(allreq)[::-1]}
+    for k in range(cfg.get("schedules", 3)):
+        sh = list(allreq)
+        _random.Random(1000 + k).shuffle(sh)
+        schedules[f"shuffled{k}"] = sh
+    for sname, sched in schedules.items():
+        Pl = bd.Problem(dict(cfg, sizes=sizes, max_order=mo), E=E, classes=classes, terms_data=X)
+        series = Pl.run()
+        requested = []
+        problem = None
+        for step, (w, bi, bj, n) in enumerate(sched):
+            series[w][(bi, bj, *n)]
+            requested.append(n)
+            calls = Pl.h_calls
+            bad_cone = [c for c in calls if not any(all(a <= b for a, b in zip(c[2:], m)) for m in requested)]
+            dup = len(calls) - len(set(calls))
+            if bad_cone or dup:
+                problem = dict(schedule=sname, step=step, request=[w, bi, bj, *n], outside_cone=bad_cone[:5], repeated=dup,
+                               prefix=[[a, b, c, *d] for a, b, c, d in sched[: step + 1]][-6:])
+                break
+        name = f"calllog schedule {sname} ({len(sched)} requests)"
+        if problem:
+            rec.direct_violation(name, f"{sigb}:calllog-schedule-{'cone' if problem['outside_cone'] else 'repeat'}", problem)
+        else:
+            rec.discharged(name + f" ({len(Pl.h_calls)} evaluations)", "confirmed")
     # list-valued order requests (numpy pairs several lists element-wise): only the cones of the paired orders may be evaluated
     if npar == 2 and mo >= 2:
         for w in range(3):
@@ -732,4 +762,6 @@ def configs_c12a(tier):
     cfgs.append(dict(carrier="A", hermitian=True, sizes=[2, 1], spectrum=["0", "2", "1"], nparams=1, term_order=4, max_order=3, fd=[0]))
     cfgs.append(dict(carrier="A", hermitian=True, sizes=[3], spectrum=["0", "1", "2"], nparams=2, term_order=2, max_order=2,
                      fd={"0": [[0, 1, 0], [1, 0, 0], [0, 0, 0]]}))
+    if tier == "thorough":
+        cfgs = [dict(c, schedules=8) for c in cfgs]
     return [("vf.props.relations", "c12a", c) for c in cfgs]
